@@ -124,6 +124,45 @@ def build(shape, size, rng):
             return out
 
         return font, samples
+    if shape == "mixedpairs":
+        # one lookup whose class-pair subtable (Format 2) PRECEDES a glyph-pair subtable (Format 1) that
+        # lists some of the same first glyphs: the first subtable covering the first glyph decides, so the
+        # class values shadow the glyph pairs; first glyphs outside the class coverage get the glyph pairs
+        k = size
+        font, names = make_font(4 * k + k + 1)
+        gm = font.getReverseGlyphMap()
+        first = [(names[1 + 2 * c], names[2 + 2 * c]) for c in range(k)]
+        base2 = 1 + 2 * k
+        second = [(names[base2 + 2 * c], names[base2 + 2 * c + 1]) for c in range(k)]
+        extra = [names[1 + 4 * k + c] for c in range(k)]
+        cpairs = {}
+        for a in range(k):
+            for b in range(k):
+                cpairs[(first[a], second[b])] = (B.buildValue({"XAdvance": 1 + abs(val(a, b))}), None)
+        st2 = B.buildPairPosClassesSubtable(cpairs, gm)
+        gpairs = {}
+        for a in range(0, k, 2):
+            for b in range(k):
+                gpairs[(first[a][0], second[b][0])] = (B.buildValue({"XAdvance": -700 - a}), None)
+        for c in range(k):
+            for b in range(k):
+                gpairs[(extra[c], second[b][1])] = (B.buildValue({"XAdvance": -300 - c - b}), None)
+        st1 = B.buildPairPosGlyphs(gpairs, gm)
+        assemble(font, "GPOS", [B.buildLookup([st2] + list(st1))], "kern")
+
+        def samples(r, kk=200):
+            out = []
+            for _ in range(kk):
+                b = r.randrange(k)
+                if r.random() < 0.6:
+                    a = r.randrange(0, k, 2) if r.random() < 0.7 else r.randrange(k)
+                    out.append(([gm[first[a][0]], gm[second[b][0]]], ("adv0", ADV + 1 + abs(val(a, b)))))
+                else:
+                    c = r.randrange(k)
+                    out.append(([gm[extra[c]], gm[second[b][1]]], ("adv0", ADV - 300 - c - b)))
+            return out
+
+        return font, samples
     if shape == "manylookups":
         nl = size
         ng = 260
